@@ -14,7 +14,7 @@ ASSUMPTIONS = [
     "exception classes from a menu of 8 shapes; positional arguments include free integers, keyword arguments from a menu ('across every serializer' is covered for JSON here and by the C03 codec contract otherwise)",
     "keyword-argument names that collide with parameter / attribute names on the receiving side (error, self, callee, enc_algo, ...) are driven by the peerkw units with a free integer value",
 ]
-BOUNDS = {"quick": "8 exception-class shapes x 4 argument shapes (free 64-bit integers) x 3 keyword shapes x traceback on/off x {direct functions, full call through two sessions}; 11 colliding keyword names x 3 receiver registrations x args on/off", "thorough": "same, plus msgpack/cbor codecs on concrete values"}
+BOUNDS = {"quick": "8 exception-class shapes x 4 argument shapes (free 64-bit integers) x 3 keyword shapes x traceback on/off x {direct functions, full call through two sessions}; 8 exception types raised by the registered class's constructor; registrations of 4 sessions in one process; 11 colliding keyword names x 3 receiver registrations x args on/off", "thorough": "same, plus msgpack/cbor codecs on concrete values"}
 EXPECT_COVERS = ["cls:registered", "cls:fallback", "uri:registered", "uri:runtime_error", "uri:carried", "e2e"]
 BUDGET = {"quick": dict(wall_s=200, max_paths=20000, diff_samples=4), "thorough": dict(wall_s=1200)}
 
@@ -241,9 +241,97 @@ def peer_kwargs(sx, key, registered, with_args):
     return [key, type(got[0]).__name__ if got else None]
 
 
+CTOR_EXC = ["ValueError", "KeyError", "IndexError", "AttributeError", "RuntimeError", "ZeroDivisionError", "LookupError", "Custom"]
+
+
+def ctor_failure(sx, exc_name, with_args, with_kwargs):
+    """the class registered for the URI has a constructor that raises - ANY exception type - for the received payload: the error is not lost,
+    the call fails exactly once with a generic application error carrying URI, args and kwargs"""
+    from autobahn.wamp import message
+    from autobahn.wamp.exception import ApplicationError
+    clock, trace, caller, t = wamplib.joined_session(sx)
+
+    class Custom(Exception):
+        pass
+    exc_cls = Custom if exc_name == "Custom" else getattr(__import__("builtins"), exc_name)
+
+    class Picky(Exception):
+        def __init__(self, *a, **k):
+            raise exc_cls("constructor does not like this payload")
+    caller.define(Picky, "com.myapp.error.picky")
+    got = []
+    d = caller.call("com.p")
+    d.addErrback(lambda f: got.append(f.value))
+    rid = t.sent[-1].request
+    v = sx.int("v", 0, 2 ** 53)
+    args = [v, "x"] if with_args else None
+    kwargs = {"k": v} if with_kwargs else None
+    info = dict(exc=exc_name, with_args=with_args, with_kwargs=with_kwargs)
+    try:
+        caller.onMessage(message.Error(message.Call.MESSAGE_TYPE, rid, "com.myapp.error.picky", args=args, kwargs=kwargs))
+    except Exception as x:  # noqa
+        sx.fail("error-lost:exception-escapes-caller-onMessage", info=dict(info, escaped=repr(x)))
+        return ["exc"]
+    sx.check(len(got) == 1, "pending-call-fails-exactly-once", info=info)
+    if got:
+        x = got[0]
+        ok = isinstance(x, ApplicationError) and x.error == "com.myapp.error.picky" and len(x.args) == len(args or ()) and \
+            bool(sx.And(*[a == b for a, b in zip(x.args, args or ())]) if args else True) and set(x.kwargs) == set(kwargs or {}) and \
+            bool(x.kwargs["k"] == v if kwargs else True)
+        sx.check(ok, "fallback-is-generic-ApplicationError-carrying-everything", info=dict(info, got=type(x).__name__))
+    sx.cover("cls:fallback")
+    return [exc_name]
+
+
+def isolation(sx, order):
+    """registrations are per session: what one session define()s never changes what another session of the same process surfaces"""
+    from autobahn.wamp import message
+    from autobahn.wamp.exception import ApplicationError
+    URI = "com.myapp.error.shared"
+
+    class A(Exception):
+        pass
+
+    class B(Exception):
+        pass
+    sessions = {}
+
+    def mk(name, cls):
+        clock, trace, s, t = wamplib.joined_session(sx)
+        if cls is not None:
+            s.define(cls, URI)
+        sessions[name] = (s, t, cls)
+    plan = [("a", A), ("plain", None), ("b", B)] if order == 0 else [("plain", None), ("b", B), ("a", A)]
+    for name, cls in plan:
+        mk(name, cls)
+    mk("late", None)                   # created after the others have registered their classes
+    v = sx.int("v", 0, 2 ** 53)
+    for name, (s, t, cls) in sessions.items():
+        got = []
+        d = s.call("com.p")
+        d.addErrback(lambda f: got.append(f.value))
+        try:
+            s.onMessage(message.Error(message.Call.MESSAGE_TYPE, t.sent[-1].request, URI, args=[v]))
+        except Exception as x:  # noqa
+            sx.fail("error-lost:exception-escapes-caller-onMessage", info=dict(session=name, escaped=repr(x)))
+            continue
+        info = dict(session=name, order=order, got=type(got[0]).__name__ if got else None)
+        sx.check(len(got) == 1, "pending-call-fails-exactly-once", info=info)
+        if got:
+            want = cls if cls is not None else ApplicationError
+            sx.check(type(got[0]) is want and bool(got[0].args[0] == v), "each-session-surfaces-its-own-registration", info=info)
+    sx.cover("cls:registered")
+    return [order]
+
+
 def units(tier):
     U = []
     q = tier == "quick"
+    for exc_name in CTOR_EXC:
+        for wa, wk in ((True, True), (True, False), (False, False)):
+            U.append(("ctorfail/%s/%d%d" % (exc_name, wa, wk), "ctor_failure", dict(exc_name=exc_name, with_args=wa, with_kwargs=wk)))
+    for order in (0, 1):
+        U.append(("isolation/%d" % order, "isolation", dict(order=order)))
     for key in PEER_KEYS:
         for registered in ("no", "generic-ctor", "kwargs-ctor"):
             for with_args in (False, True):
